@@ -1552,7 +1552,24 @@ def cstr_find(eng, s, c, right=False):
     return SV(TInt, r)
 
 
+def cstr_split_all(eng, s, sep):
+    """s.split(c) without a limit: [s] when c does not occur, [before, after] when it occurs exactly once, otherwise
+    a sequence of at least three pieces of which only the length bound is stated."""
+    first = cstr_find(eng, s, sep, False)
+    if not eng.branch(first.e >= 0):
+        return ConcreteList([s if isinstance(s, SV) else SV(TCStr, to_z3(s))])
+    last = cstr_find(eng, s, sep, True)
+    if eng.branch(first.e == last.e):
+        n = b_len(eng, s)
+        return ConcreteList([getslice(eng, s, 0, first, None), getslice(eng, s, eng.numval(first.e + 1), n, None)])
+    pieces = eng.fresh(TSeq(TCStr), 'pieces')
+    eng.assume(TSeq(TCStr).len(pieces) >= 3)
+    return SV(TSeq(TCStr), pieces)
+
+
 def cstr_split1(eng, s, sep, maxsplit=-1, right=False):
+    if isinstance(sep, str) and len(sep) == 1 and maxsplit == -1 and not right:
+        return cstr_split_all(eng, s, sep)
     if not (isinstance(sep, str) and len(sep) == 1 and maxsplit == 1):
         raise EngineError('split on a code-point string needs a single character separator and maxsplit 1')
     r = cstr_find(eng, s, sep, right)
